@@ -298,14 +298,19 @@ CHECKS = {
                        "FRESH and stays right; on periodic data it shows). Writes sliced 1..100 / 1..300KiB / window-sized / bytewise; after each "
                        "write - and optionally right after creation, before any data - nothing, Flush, or Flush + a new session resumed from the reported ReadOffset/OverlayOffset with the stale overlay "
                        "tail kept or cut. Oracles: an independent decoder + reference replay == new; OverlayPatchContext.Patch onto a copy of old + "
-                       "truncate == new; ReadOffset after a flush == bytes consumed; SKIP ops only cover bytes where old == new."),
+                       "truncate == new; ReadOffset after a flush == bytes consumed; SKIP ops only cover bytes where old == new. "
+                       "Second stage: the same generated cases driven through the writer's real caller, the overlay bowl (GetWriter, EntryWriter.Resume/Save/Write/"
+                       "Finalize, Commit): after a Save the session either dies at once or goes on for one more write (and possibly one more Save) before it dies; a "
+                       "brand-new bowl resumes from the gob copy of the saved checkpoint - the bowl, not the harness, positions the old-file reader and the staged "
+                       "overlay file. Oracles: Save/Resume/Tell offsets == bytes written; committed file == new."),
         "level_note": "the old-file reader never returns short reads (bytes.Reader / os.File), like the readers the overlay bowl uses.",
         "rule": ("rapid draws (entropy, runs, cuts, slices, actions). Non-trivial: the overlay contains >=1 SKIP and >=1 FRESH and the run had a "
                  "flush or a session break. Distinct: SHA-1 of the spec."),
         "assumptions": ["at most 24 sessions per case (each allocates two 128KiB buffers)"],
-        "required_classes": {"quick": ["op:skip", "op:fresh", "sessions:>1", "flush:some", "entropy:periodic", "new:shorter", "new:longer"],
+        "required_classes": {"quick": ["op:skip", "op:fresh", "sessions:>1", "flush:some", "entropy:periodic", "new:shorter", "new:longer", "bowl:session-wrote-after-the-checkpoint-it-is-resumed-from"],
                              "thorough": ["op:skip", "op:fresh", "sessions:>1", "flush:some", "entropy:periodic", "entropy:constant", "new:shorter", "new:longer", "new:empty"]},
-        "stages": [rapid("overlay", "TestProp", 16000, 600000, qs=16, ts=16, qt=600, tt=5400)],
+        "stages": [rapid("overlay", "TestProp", 16000, 600000, qs=16, ts=16, qt=600, tt=5400),
+                   rapid("viabowl", "TestViaBowl", 8000, 300000, qs=16, ts=16, qt=600, tt=5400)],
     },
     "C12": {
         "title": "A bsdiff series applied to the old file yields the new file",
